@@ -60,8 +60,9 @@ Live(i, s) == SelectSeq(s, LAMBDA x : InSeq(lists[i], x))
 AfterAdd(i) == /\ until' = [until EXCEPT ![i] = IF @ = 0 THEN Big ELSE @ - 1]
                /\ frames' = IF until[i] = 0 THEN [d \in DOMAIN frames |-> IF frames[d].l = i THEN [frames[d] EXCEPT !.wrapped = TRUE] ELSE frames[d]]
                             ELSE frames
+\* (Ev.b # 0: the new node holds a callback EQUAL to identity Ev.b - the same comparable callback registered once more)
 Add(i, newlist) == /\ InCtx /\ alive[i] /\ Ev.r = Len(cbOf) + 1
-                   /\ lists' = [lists EXCEPT ![i] = newlist] /\ cbOf' = Append(cbOf, Len(cbOf) + 1)
+                   /\ lists' = [lists EXCEPT ![i] = newlist] /\ cbOf' = Append(cbOf, IF Ev.b # 0 THEN Ev.b ELSE Len(cbOf) + 1)
                    /\ AfterAdd(i) /\ LvOk(lists', alive, pins) /\ UNCHANGED <<alive, pins>>
 
 EvSetCtr == Is("k") /\ frames = <<>> /\ until' = [until EXCEPT ![Ev.o] = Ev.a] /\ UNCHANGED <<lists, alive, cbOf, frames, pins>>
